@@ -102,6 +102,40 @@ def one_upgrad(ctx: Ctx):
         ratios.append(defect / bound if bound > 0 else 0.0)
     ctx.case(("upgrad", str(J), str(pv)), nontrivial=True)
     ctx.count("upgrad_ladders")
+    # the PROVED bound (TjdProps/C09b.lean `upgrad_defect_bound_computed`), evaluated exactly by the model:
+    #   |A(diag(c)J) - a A(diag(c1)J) - b A(diag(c2)J)|^2 <= 3 m reg_eps (s^2 S(c) + a^2 s1^2 S(c1) + b^2 s2^2 S(c2))
+    # with S(cc) = sum_i |w0_i(cc)|^2 from the un-regularised minimisers (certified search on J J^T)
+    from fractions import Fraction as Fr
+    from agg_common import ask_agg, fr_list
+    fa, fb = Fr(a), Fr(b)
+    e1, e2 = [Fr(float(x)) for x in c1], [Fr(float(x)) for x in c2]
+    ec = [fa * x + fb * y for x, y in zip(e1, e2)]
+    uvec = [Fr(v) for v in pv] if pv is not None else [Fr(1, m)] * m
+    rep = ask_agg(ctx.driver, "upgradunreg", J, u=uvec, c=ec, c1=e1, c2=e2)
+    if rep is None:
+        ctx.count("upgrad_theorem_bound_skipped_no_certificate")
+    else:
+        S, S1, S2 = [float(v) for v in fr_list(rep[1])]
+        svs = [float(torch.linalg.svdvals(c[:, None] * Jt)[0]) * (1 + 1e-9) for c in (a * c1 + b * c2, c1, c2)]
+        worst = 0.0
+        for reg in ladder:
+            A = UPGrad(pref_vector=None if pv is None else torch.tensor([float(v) for v in pv], dtype=torch.float64),
+                       norm_eps=1e-3, reg_eps=reg)
+            x0, x1, x2 = [A((c[:, None] * Jt)) for c in (c1, c2, a * c1 + b * c2)]
+            d2 = float(((x2 - (a * x0 + b * x1)) ** 2).sum())
+            bound = 3 * m * reg * (svs[0] ** 2 * S + a * a * svs[1] ** 2 * S1 + b * b * svs[2] ** 2 * S2)
+            floor = (1e-6 * max(float(x2.abs().max()), 1e-300)) ** 2
+            worst = max(worst, d2 / (bound + floor))
+            ctx.count("upgrad_theorem_bound_checked")
+            if d2 > bound * (1 + 1e-6) + floor:
+                ctx.violation(f"UPGrad(reg_eps={reg}): squared linearity defect {d2:.6e} exceeds the proved bound "
+                              f"3 m reg_eps (s² S(c) + a² s1² S(c1) + b² s2² S(c2)) = {bound:.6e} "
+                              f"(theorem upgrad_defect_bound_computed)",
+                              {"aggregator": "UPGrad", "pref": str(pv), "J": [[str(v) for v in r] for r in J],
+                               "c1": c1.tolist(), "c2": c2.tolist(), "a": a, "b": b, "reg_eps": reg,
+                               "S": [S, S1, S2], "s": svs})
+                return
+        ctx.cov["upgrad_worst_defect2_over_proved_bound"] = max(ctx.cov.get("upgrad_worst_defect2_over_proved_bound", 0.0), worst)
     ctx.cov["upgrad_worst_defect_ratio"] = max(ctx.cov.get("upgrad_worst_defect_ratio", 0.0), max(ratios))
     rp = {"aggregator": "UPGrad", "pref": str(pv), "pref_dtype": str(pd), "J": [[str(v) for v in r] for r in J], "c1": c1.tolist(), "c2": c2.tolist(),
           "a": a, "b": b, "ladder": ladder, "defect/(sqrt(reg_eps) s |w|)": ratios}
@@ -130,4 +164,6 @@ def main(ctx: Ctx):
              "on integer / well-conditioned rational matrices for Mean, Sum, Constant (signed weights), ConFIG, PCGrad and "
              "Random (fixed torch seed), preference vectors; UPGrad on a reg_eps ladder 1e-2..1e-8: defect / "
              "(sqrt(reg_eps)·s·|w|₁) below a calibrated constant and vanishing along the ladder",
-        trusted=TRUSTED + ["UPGrad's quantitative defect bound is MEASURED against a calibrated constant, not proved"])
+        trusted=TRUSTED + ["UPGrad's defect bound: proved (C09b) in squared form with the un-regularised minimisers; the check "
+                           "evaluates that bound exactly (model) on the implementation's outputs, and additionally the "
+                           "calibrated-constant ladder of the first design"])
